@@ -385,25 +385,29 @@ theorem runCall_positionsOk (H : Hasher Node VH) (E : Env) (hW : WorkWf E.W) (p 
           · rfl
           · exact commitOvBody_positionsOk E hW p oid o _ rfl
   | rollback n =>
+    have ht0 : positionsOk (if E.Q.rollbackPoisonLate = true then [Step.guardWrite] else [Step.guardWrite, Step.poisonCheck true]) = true := by
+      split <;> rfl
     simp only [runCall, rollbackP]
     split
     · rfl
     · split
       · rfl
       · split
-        · rfl
+        · exact ht0
         · split
-          · rfl
+          · exact ht0
           · split
-            · rfl
-            · simp [positionsOk_append, storeCommit_positionsOk E hW, positionsOk]
+            · simp [positionsOk_append, ht0, positionsOk]
+            · split
+              · simp [positionsOk_append, ht0, positionsOk]
+              · simp [positionsOk_append, ht0, storeCommit_positionsOk E hW, positionsOk]
 
 end Nomt.Api.Pipe
 
 namespace Nomt.Api.Pipe
 open Nomt Nomt.Api
 
-/-! ### the order of ALL steps of a call against the step markers of hook H14 merged with the I/O events -/
+/-! ### the order of ALL steps of a call against the step markers of hook H15 merged with the I/O events -/
 
 def Pos.name : Pos → String
   | .rbAppend => "io@rbAppend" | .preMeta => "io@preMeta" | .metaWrite => "io@metaWrite" | .metaFsync => "io@metaFsync"
